@@ -189,6 +189,9 @@ type Cluster struct {
 	// OnExec is called (cluster lock held) for every Exec appended.
 	OnExec func(e *Exec)
 
+	// DialHeld receives a token whenever a dial starts being held (DialHold).
+	DialHeld chan struct{}
+
 	stopped bool
 	wg      sync.WaitGroup
 	nconn   int
@@ -203,6 +206,7 @@ func New(addrs ...string) *Cluster {
 		scriptAt: map[string]int{},
 		released: map[string]bool{},
 		start:    time.Now(),
+		DialHeld: make(chan struct{}, 64),
 	}
 	c.cond = sync.NewCond(&c.mu)
 	for _, a := range addrs {
@@ -533,6 +537,10 @@ func (c *Cluster) Dial(ctx context.Context, network, addr string) (net.Conn, err
 			c.mu.Unlock()
 		})
 		c.Dials = append(c.Dials, DialEvent{T: c.now(), Addr: addr, Result: "held"})
+		select {
+		case c.DialHeld <- struct{}{}:
+		default:
+		}
 		c.cond.Broadcast()
 		for s.DialHold && ctx.Err() == nil && !c.stopped {
 			c.cond.Wait()
